@@ -192,6 +192,17 @@ def _impl(tier, seed, search):
             except Exception: continue
             L.fail(f'twist-accepts:Twist2:{kind}', f'Twist2 accepted a 3x3 matrix that is not of se(2) form ({kind})', inp, observed=[np.asarray(a).tolist() for a in X.data])
         # ---- predicates ------------------------------------------------------------------------
+        # a fixed corpus of quaternion-to-matrix results whose rounding residue ||R R' - I|| is the largest an offline scan of 2e5 random
+        # unit quaternions found (11 .. 13 eps): values produced by a primitive constructor, accepted by predicates and constructors
+        if it == 0:
+            for qc_ in ([-0.17656849169551772, -0.7294059702508839, 0.6590780636730922, -0.04905715327720726], [0.14592484653721088, 0.3818711755164088, 0.527385229946081, 0.7448121667289858],
+                        [-0.002842162971137752, 0.886966047582152, -0.3384771573210029, 0.31419160796882173], [0.07903734452465754, 0.7723371914444151, -0.3770517480279928, 0.5050547892964465],
+                        [0.15852419355954878, 0.14187574260232697, 0.6832798959659013, 0.6984768696858619], [0.14838155731176916, 0.8109199536546378, -0.5389726085653451, -0.1729169437353125],
+                        [0.2557543132051523, -0.9449726131860411, 0.011968240215014038, 0.20364982895023728]):
+                Rc_ = b.q2r(qc_); Tc_ = b.r2t(Rc_); cinp = dict(q=qc_, residual_eps=float(np.linalg.norm(Rc_ @ Rc_.T - np.eye(3)) / 2.220446049250313e-16))
+                L.check('pred-accepts:SO3(corpus)', bool(b.isrot(Rc_, check=True)) and bool(b.ishom(Tc_, check=True)) and bool(SO3.isvalid(Rc_)) and bool(SE3.isvalid(Tc_)), cinp, 'isrot / ishom / isvalid rejects the rotation matrix q2r returned for a unit quaternion', sig='pred-accepts:SO3')
+                for fn_, ct_ in (('SO3(R)', lambda: SO3(Rc_)), ('SO3([R, R])', lambda: SO3([Rc_, Rc_])), ('SE3(T)', lambda: SE3(Tc_)), ('UnitQuaternion(R)', lambda: UnitQuaternion(Rc_))):
+                    L.noraise(f'ctor-accepts-valid(corpus):{fn_}', ct_, cinp, f'{fn_} with the rotation matrix q2r returned for a unit quaternion must be accepted', sig='ctor-accepts-valid(corpus)')
         for cname, pred, mk in (('SO3', lambda M: b.isrot(M, check=True), lambda: inputs.so3(g)), ('SE3', lambda M: b.ishom(M, check=True), lambda: inputs.se3(g, 3)),
                                 ('SO2', lambda M: b.isrot2(M, check=True), lambda: inputs.so2(g)), ('SE2', lambda M: b.ishom2(M, check=True), lambda: inputs.se2(g, 3))):
             M = mk()
